@@ -122,7 +122,7 @@ func rulePageCapacity(c *Ctx, id string) {
 			bad := ""
 			for _, r := range []row{{2, 4096}, {3, 4096}, {25, 16384}, {7, 512}} {
 				ev := &Evaluator{Load: loadPS(r.P), Param: func(p *ssa.Parameter) (V, bool) {
-					if p.Name() == "count" {
+					if isLastParam(p) {
 						return iV(r.S), true
 					}
 					return unkV, false
@@ -155,7 +155,7 @@ func rulePageCapacity(c *Ctx, id string) {
 					}
 					p, isP := stripConv(bo.X).(*ssa.Parameter)
 					k, isK := constInt(bo.Y)
-					if isP && p.Name() == "count" && isK && k == 1 && blockDominatedByEdge(b, b.Succs[0], get.Block()) {
+					if isP && isLastParam(p) && isK && k == 1 && blockDominatedByEdge(b, b.Succs[0], get.Block()) {
 						ok = true
 					}
 				}
@@ -466,7 +466,7 @@ func growTable(c *Ctx, gr *ssa.Function) string {
 				return unkV, false
 			},
 			Param: func(p *ssa.Parameter) (V, bool) {
-				if p.Name() == "sz" {
+				if isLastParam(p) {
 					return iV(r.req), true
 				}
 				return symV(p.Name()), true
@@ -678,7 +678,7 @@ func mmapSizeTable(c *Ctx, ms *ssa.Function) string {
 					return unkV, false
 				},
 				Param: func(p *ssa.Parameter) (V, bool) {
-					if p.Name() == "size" {
+					if isLastParam(p) {
 						return iV(n), true
 					}
 					return symV(p.Name()), true
@@ -742,7 +742,7 @@ func dbMmapTable(c *Ctx, dm *ssa.Function) string {
 				return unkV, false
 			},
 			Param: func(p *ssa.Parameter) (V, bool) {
-				if p.Name() == "minsz" {
+				if isLastParam(p) {
 					return iV(r.minsz), true
 				}
 				return symV(p.Name()), true
@@ -812,7 +812,7 @@ func allocateRemapTable(c *Ctx, da *ssa.Function) string {
 				return unkV, false
 			},
 			Param: func(p *ssa.Parameter) (V, bool) {
-				if p.Name() == "count" {
+				if isLastParam(p) {
 					return iV(r.count), true
 				}
 				return symV(p.Name()), true
@@ -874,7 +874,7 @@ func ruleAllocatePrefersFreeList(c *Ctx, id string) {
 						return unkV, false
 					},
 					Param: func(p *ssa.Parameter) (V, bool) {
-						if p.Name() == "count" {
+						if isLastParam(p) {
 							return iV(count), true
 						}
 						return symV(p.Name()), true
@@ -966,7 +966,7 @@ func ruleAllocateLimitTable(c *Ctx, id string) {
 					return unkV, false
 				},
 				Param: func(p *ssa.Parameter) (V, bool) {
-					if p.Name() == "count" {
+					if isLastParam(p) {
 						return iV(r.count), true
 					}
 					return symV(p.Name()), true
@@ -1022,4 +1022,16 @@ func ruleAllocateLimitTable(c *Ctx, id string) {
 		}
 		c.check(id+":(*DB).allocate:limit-table", da, da.Pos(), fmt.Sprintf("with MaxSize configured, a run ending beyond the limit is refused with ErrMaxSizeReached before the high-water mark moves or the file is remapped; requests that fit are granted (%d rows)", len(rows)), bad == "", bad)
 	})
+}
+
+// isLastParam: p is the last parameter of its function (db.allocate's count, grow's size, mmapSize's size,
+// db.mmap's minimum size) — matched by position, not by name.
+func isLastParam(p *ssa.Parameter) bool {
+	f := p.Parent()
+	return f != nil && len(f.Params) > 0 && f.Params[len(f.Params)-1] == p
+}
+
+func isFuncTyped(p *ssa.Parameter) bool {
+	_, ok := p.Type().Underlying().(*types.Signature)
+	return ok
 }
